@@ -218,6 +218,14 @@ def run_micro(binary, platform, seed, n, only=-1, timeout=240, profile='', mode=
     return res, log
 
 
+def why_stopped(log):
+    """the panic message (or the time-out marker) of a run that left no result"""
+    for line in log.split('\n'):
+        if 'anic' in line or '[timeout' in line:
+            return line.strip()[:300]
+    return log[-300:]
+
+
 def micro_diff(e, t, plat):
     """emulation vs timing result of one generated kernel"""
     for name in ('out', 'out2', 'scr'):
@@ -434,10 +442,13 @@ def main(argv):
     #   general : all kernel families on the stock platforms and on a one-CU R9 Nano
     #   lds     : LDS kernels with 4-24 work-groups of 1-4 wavefronts on one CU / one shader array
     #   seq     : blocking launch sequences reader / writer / reader ... without memory copies
+    #   dirty   : copy - kernel - copy - kernel - copy with ~2 MB of dirty lines in the L2 at the second copy
     STREAMS = [
         ('general', 'micro', '', 40, 150, ['r9nano', 'mi300a', 'r9nano:1x1']),
-        ('lds', 'micro', 'lds', 12, 40, ['r9nano:1x1', 'r9nano:1x2', 'mi300a:1x1']),
+        ('lds', 'micro', 'lds', 12, 40, ['r9nano:1x1', 'r9nano:1x2', 'r9nano:2x1']),
         ('seq', 'seq', '', 10, 40, ['r9nano', 'mi300a', 'r9nano:1x1', 'r9nano:1x4']),
+        # dirty: a kernel leaves the whole L2 dirty, H2D into one page of the same buffer, reader kernel, D2H
+        ('dirty', 'dirty', '', 1, 3, ['r9nano'] + (['mi300a'] if thorough else [])),
     ]
     if replay is None or replay.get('mode') == 'micro':
         mseed = replay['seed'] if replay else vlib.seed()
@@ -447,7 +458,7 @@ def main(argv):
         jobs = []
         for name, hmode, profile, nq, nt, plats in streams:
             mn = replay['n'] if replay else (nt if thorough else nq)
-            only = replay['index'] if replay else -1
+            only = replay['index'] if (replay and hmode != 'dirty') else -1
             if replay and replay.get('platform') in plats:
                 plats = [replay['platform']]
             for p in ['emu'] + plats:
@@ -470,15 +481,28 @@ def main(argv):
             if got is None:
                 culprit = -1
                 for k in ref:
+                    if hmode == 'dirty':
+                        break
                     g1, _ = run_micro(binary, p, mseed, mn, k['index'], timeout=90, profile=profile, mode=hmode)
                     if g1 is None:
                         culprit = k['index']
                         break
                 micro_bad.append((j, culprit, 'platform %s does not finish (panic or hang) on generated %s #%d which emulation completes: %s'
-                                  % (p, 'sequence' if hmode == 'seq' else 'kernel', culprit, log[-300:])))
+                                  % (p, 'sequence' if hmode == 'seq' else 'kernel', culprit, why_stopped(log))))
                 continue
             for e, t in zip(ref, got):
-                if hmode == 'seq':
+                if hmode == 'dirty':
+                    dd = None
+                    for nm in ('page_data', 'read_back', 'before', 'after'):
+                        if e[nm] != t[nm]:
+                            nd = sum(1 for x, y in zip(e[nm], t[nm]) if x != y)
+                            i = next(i for i, (x, y) in enumerate(zip(e[nm], t[nm])) if x != y)
+                            dd = ('copy-kernel-copy scenario %d: kernel dirties 2 MB, host overwrites page %d, %s: %d of %d words differ, first word %d: '
+                                  'emu 0x%08x %s 0x%08x' % (e['index'], e['page'], {'page_data': 'device-to-host copy of the page',
+                                  'read_back': 'the page as read by the next kernel', 'before': 'the page before it', 'after': 'the page after it'}[nm],
+                                  nd, len(e[nm]), i, e[nm][i], p, t[nm][i]))
+                            break
+                elif hmode == 'seq':
                     dd = None
                     for nm in ('out', 'x'):
                         if e[nm] != t[nm]:
@@ -510,6 +534,8 @@ def main(argv):
                 distinct.add(vlib.case_hash(['micro', k['words'], k['wg_size'], k['num_wg']]))
         for k in (refs.get('seq') or []):
             distinct.add(vlib.case_hash(['seq', k['steps'], k['num_wg']]))
+        for k in (refs.get('dirty') or []):
+            distinct.add(vlib.case_hash(['dirty', k['index'], k['page']]))
         for j, idx, text in micro_bad[:1]:
             name, hmode, profile, mn, only, p = j
             words = None
